@@ -53,4 +53,10 @@ TEXT = {
     level_text="Stateful generated-history search; the spy observes every session call the client layer makes, the hook observes what the server actually bound, so leaks and mis-addressed calls are seen directly.",
     level_note="Trusted: spy, mockfs, VerifFidTable. The client layer is exercised in-process (no wire); the wire path is C09/C17.",
  ),
+ "C17": dict(
+    technique="property-based testing (rapid) of Readdir at three levels (direct, through SFileSys, end-to-end over a connection with forced msize) against the reference stat encoder",
+    design_ref="DESIGN.md section 4, C17",
+    level_text="Generated listings x iterator batchings x read-size sequences x msize; the oracle is byte equality of the concatenated replies with independently encoded entries plus whole-entry boundaries.",
+    level_note="Trusted: refwire.EncodeStat, mockfs listing order, the msize-forcing connection wrapper.",
+ ),
 }
